@@ -30,7 +30,7 @@ REQUIRED = {
     "in_loop_target_changes_checked": 60, "cadence_iterations_checked": 400,
     "routines_traced": 9,
 }
-TIMEOUT = {"quick": 1500, "thorough": 3400}
+TIMEOUT = {"quick": 1500, "thorough": 7000}
 ASSUMPTIONS = [
     "soft update within 3 ulp (float32) of the largest term per leaf",
     "an update of a target that equals its online net is invisible; sufficiency "
@@ -42,7 +42,7 @@ COST = {"mrq": 16, "td7": 10, "sac": 6}
 
 def gen_cases(tier, seed):
     rng = np.random.default_rng(seed + 606)
-    k = 1 if tier == "quick" else 6
+    k = 1 if tier == "quick" else 16
     cases = []
     for arch in range(7):
         for r in range(2 * k):
